@@ -173,4 +173,14 @@ PROPS = {
   "level_note": "Trusted as C04 plus: log10 oracle values satisfy log10(est) <= 6*int(log10(int est)) (checked by the harness on every supplied value). Known finding F18 replayed.",
   "technique": "Coq/Flocq monotonicity theorem + differential replay of twin runs",
  },
+ "C20": {
+  "tests": ["TestC20", "TestC20Registry"],
+  "rule": "all six limit kinds (plain, traced) on a recording registry: every sample's emissions (kind = how the metric was registered, name, value) are compared with the model and with the oracle; "
+          "strategies' in-flight samples and limit gauges are checked in the C01/C03 drivers; the go-metrics registry is driven through random Start/Stop/Register/Tick sequences on a virtual clock "
+          "and polls are counted per period; the datadog registry is exercised once over a loopback UDP socket in real time; non-trivial = a distinct sample emission / tick situation",
+  "level_text": "C20_{aimd,vegas,gradient,gradient2}_emits (every branch of every algorithm emits RTT and in-flight once, drop counter iff drop) and C20_registry_* (life cycle over all operation sequences) proved; "
+                "the registry model is tied to metric_registry/gometrics by replay of poll counts; the datadog backend is only observed (partial).",
+  "level_note": "Trusted as C04; registry model abstracts the poller goroutine as 'one poll per period and gauge while started' (synctest virtual clock); the dogstatsd client and go-metrics are outside the model.",
+  "technique": "Coq case-analysis theorems + differential replay of emissions and poll counts",
+ },
 }
